@@ -1021,6 +1021,8 @@ def _compare(ctx, pending, answers):
             a, b = impl[1], model[1]
             if what == 'construct':
                 continue
+            if what == 'history':
+                b = [x if x[0] == 'ok' else ['err', y[1] if y[0] == 'err' else x[1]] for x, y in zip(b, a)] if len(a) == len(b) else b
             if what == 'encode':
                 a = {k: a[k] for k in ('coords', 'double', 'commonZ', 'indexList', 'numAnn')}
                 if impl[1].get('both'):
